@@ -9,10 +9,12 @@ import Driver.OpsDecoders
 import Driver.OpsDeform
 import Driver.OpsDist
 import Driver.OpsGui
+import Driver.OpsLatHollowPlanar3DCode
 import Driver.OpsLatPlanar2DCode
 import Driver.OpsLatPlanar3DCode
 import Driver.OpsLatRotatedPlanar2DCode
 import Driver.OpsLatRotatedPlanar3DCode
+import Driver.OpsLatRotatedToric3DCode
 import Driver.OpsLatToric2DCode
 import Driver.OpsLatToric3DCode
 import Driver.OpsLatXCubeCode
@@ -28,7 +30,7 @@ open Panqec
     (`none` = not my op); the first that answers wins. -/
 
 def handlers : List (List String → Option String) :=
-  [Drv.handleAnalysis, Drv.handleBatch, Drv.handleBits, Drv.handleCli, Drv.handleCode, Drv.handleDecoders, Drv.handleDeform, Drv.handleDist, Drv.handleGui, Drv.handleLatPlanar2DCode, Drv.handleLatPlanar3DCode, Drv.handleLatRotatedPlanar2DCode, Drv.handleLatRotatedPlanar3DCode, Drv.handleLatToric2DCode, Drv.handleLatToric3DCode, Drv.handleLatXCubeCode, Drv.handleMask, Drv.handleNoise, Drv.handleSim, Drv.handleSweep, Drv.handleUnionFind]
+  [Drv.handleAnalysis, Drv.handleBatch, Drv.handleBits, Drv.handleCli, Drv.handleCode, Drv.handleDecoders, Drv.handleDeform, Drv.handleDist, Drv.handleGui, Drv.handleLatHollowPlanar3DCode, Drv.handleLatPlanar2DCode, Drv.handleLatPlanar3DCode, Drv.handleLatRotatedPlanar2DCode, Drv.handleLatRotatedPlanar3DCode, Drv.handleLatRotatedToric3DCode, Drv.handleLatToric2DCode, Drv.handleLatToric3DCode, Drv.handleLatXCubeCode, Drv.handleMask, Drv.handleNoise, Drv.handleSim, Drv.handleSweep, Drv.handleUnionFind]
 
 def handleToks (toks : List String) : String :=
   match handlers.findSome? (fun h => h toks) with
